@@ -6,6 +6,7 @@ screens, all texts and all library functions (`Lib`).
 -/
 import VaxisModel.Lemmas.Window
 import VaxisModel.Lemmas.WindowText
+import VaxisModel.Lemmas.WindowSkelPinned
 
 namespace VaxisModel.Props.C11
 open VaxisModel.Model.Window VaxisModel.Spec.Window VaxisModel.Lemmas.Window
@@ -380,6 +381,28 @@ theorem facts_wrap :
     wrapStoresWidth = true ∧
     remeasureWrap = ["if !R.Vx.caps.unicodeCore||!R.Vx.caps.explicitWidth { E(chars).Width=R.Vx.characterWidth(E(chars).Grapheme); chars[K(chars)].Width=E(chars).Width }"] ∧
     condsWrap = ["row>=S1", "case total>S0", "case total+col>S0", "uniseg.HasTrailingLineBreakInString(E(chars).Grapheme)", "col+E(chars).Width>S0", "E(chars).Width>S0", "col>=S0"] := by
+  decide +kernel
+
+/-- **The helpers' statement structure is the transcribed one**: the skeletons of `ShowCursor`, `Fill`,
+`Origin`, `Clear`, `Print`, `PrintTruncate`, `Println` and `Wrap` regenerated from window.go on this
+run equal the pinned transcription (`Lemmas/WindowSkelPinned.lean`) that `cursorPos`, `fillOps`,
+`origin`, `clear`, `printGo`, `truncGo`, `lnGo`, `wrapSegs`/`wrapChars` follow statement by statement. -/
+theorem facts_helper_skeletons :
+    VaxisModel.Gen.WindowFacts.skShowCursor = VaxisModel.Lemmas.WindowSkelPinned.skShowCursor ∧
+    VaxisModel.Gen.WindowFacts.skFill = VaxisModel.Lemmas.WindowSkelPinned.skFill ∧
+    VaxisModel.Gen.WindowFacts.skOrigin = VaxisModel.Lemmas.WindowSkelPinned.skOrigin ∧
+    VaxisModel.Gen.WindowFacts.skClear = VaxisModel.Lemmas.WindowSkelPinned.skClear ∧
+    VaxisModel.Gen.WindowFacts.skPrint = VaxisModel.Lemmas.WindowSkelPinned.skPrint ∧
+    VaxisModel.Gen.WindowFacts.skPrintTruncate = VaxisModel.Lemmas.WindowSkelPinned.skPrintTruncate ∧
+    VaxisModel.Gen.WindowFacts.skPrintln = VaxisModel.Lemmas.WindowSkelPinned.skPrintln ∧
+    VaxisModel.Gen.WindowFacts.skWrap = VaxisModel.Lemmas.WindowSkelPinned.skWrap := by
+  decide +kernel
+
+/-- No statement of the helpers has a form the extractor does not know. -/
+theorem helpers_fully_recognised :
+    (VaxisModel.Gen.WindowFacts.skShowCursor ++ VaxisModel.Gen.WindowFacts.skFill ++ VaxisModel.Gen.WindowFacts.skOrigin ++
+     VaxisModel.Gen.WindowFacts.skClear ++ VaxisModel.Gen.WindowFacts.skPrint ++ VaxisModel.Gen.WindowFacts.skPrintTruncate ++
+     VaxisModel.Gen.WindowFacts.skPrintln ++ VaxisModel.Gen.WindowFacts.skWrap).all (fun l => l.2.1 != "unknown") = true := by
   decide +kernel
 
 /-- The extractor recognised every shape it looks for in window.go / screen.go / character.go. -/
